@@ -36,11 +36,14 @@ Definition follow_resume (x : sx) : sx :=
   end.
 
 (** spec oracle on the implementation's own output.
-    input [levels; t; applied (level min max)...; t' (sidecar after); quiescent]
+    input [levels; t; applied (level min max)...; t' (sidecar after); quiescent; failed]
+    [applied] = the files ACTUALLY applied (a file whose open failed is not in
+    it), [failed] = 1 if an open or a close failed during the poll.
     1 iff: every applied file is in the listing; the applied sequence obeys the
-    chain rule from [t]; if the last attempted file is one whose application
-    fails, the sidecar did not move, otherwise it ends exactly at the end of
-    the chain; [t <= t']; a single fault-free poll makes progress whenever some
+    chain rule from [t]; if anything failed the sidecar did not move, otherwise
+    it ends exactly at the end of the chain of applied files (so a file that
+    could not be opened can never be skipped over); [t <= t']; a single
+    fault-free poll makes progress whenever some
     file is usable at [t]; and when [quiescent = 1] (applied = everything since
     [t], the follower stopped making progress, no faults) no file is usable at
     [t'], and if level 0 holds only single-TXID files [t'] is the furthest TXID
@@ -56,19 +59,16 @@ Definition follow_applied_ok (x : sx) : sx :=
   let applied0 := map (fun f => mkF (asN (nthx 0 f)) (asN (nthx 1 f)) (asN (nthx 2 f)) 0 [] 0) (asL (nthx 2 x)) in
   let t' := asN (nthx 3 x) in
   let q := asB (nthx 4 x) in
+  let failed := asB (nthx 5 x) in
   let in_listing := forallb (fun a => match lookup a with Some _ => true | None => false end) applied0 in
-  let last_bad := match rev applied0 with
-                  | [] => false
-                  | a :: _ => match lookup a with Some f => negb (f_bad f =? 0) | None => false end
-                  end in
   let any_bad := existsb (fun f => negb (f_bad f =? 0)) files in
   let e := chain_end t applied0 in
   sxB (in_listing && chain_ok t applied0 && (t <=? t') &&
-       (if last_bad then t' =? t else t' =? e) &&
+       (if failed then t' =? t else t' =? e) &&
        (if q then
           negb (existsb (usable t') files) &&
           (if forallb (fun f => f_min f =? f_max f) (rep_level rep 0)
            then t' =? reach (S (length files)) rep t else true)
         else
-          if any_bad then true
+          if any_bad || failed then true
           else if existsb (usable t) files then t <? t' else true)).
